@@ -30,6 +30,9 @@ mod vertical_corr;
 mod optin_inproc;
 mod optin_e2e;
 mod budgets_corr;
+mod attrs_corr;
+mod braces_corr;
+mod types_corr;
 mod corpus;
 mod gen;
 mod sweep;
@@ -111,6 +114,9 @@ fn main() {
         "optin" => optin_corr::run(&tier, seed, &out),
         "vertical" => vertical_corr::run(&tier, seed, &out),
         "budgets" => budgets_corr::run(&tier, seed, &out),
+        "attrs" => attrs_corr::run(&tier, seed, &out),
+        "braces" => braces_corr::run(&tier, seed, &out),
+        "types" => types_corr::run(&tier, seed, &out),
         "optin-dump" => optin_corr::dump(&args[2], args.get(3)),
         "boundary" => boundary::main(&args[2..]),
         "c03" => c03::run(&tier, seed, &out),
